@@ -189,9 +189,7 @@ func registerHash(e *Engine) {
 		I[pre+"Sum"] = func(in *Interp, fn *ssa.Function, a []Value) Value {
 			h := hashOf(a[0])
 			out := in.hashSum(h.alg, h.size, h.stream)
-			prefix := a[1].(SliceV)
-			all := append(in.sliceBytes(prefix), out...)
-			return in.bytesToSlice(all)
+			return in.appendDigest(a[1].(SliceV), out)
 		}
 		I[pre+"Reset"] = func(in *Interp, fn *ssa.Function, a []Value) Value {
 			hashOf(a[0]).stream = nil
@@ -261,4 +259,22 @@ func realDigest(alg string, b []byte) []byte {
 		return []byte{byte(v >> 24), byte(v >> 16), byte(v >> 8), byte(v)}
 	}
 	panic(unsupported{"digest algorithm " + alg})
+}
+
+
+// appendDigest is append(prefix, digest...) with Go's aliasing and capacity
+// behaviour: written in place when the prefix has room (callers re-slice the
+// result up to the capacity they allocated), into a fresh array otherwise.
+func (in *Interp) appendDigest(prefix SliceV, out []*smt.Term) Value {
+	prefix = in.conc(prefix)
+	need := prefix.Len + len(out)
+	if prefix.Arr != nil && need <= prefix.Cap {
+		res := SliceV{Arr: prefix.Arr, Off: prefix.Off, Len: need, Cap: prefix.Cap}
+		for i, v := range out {
+			in.sliceSet(res, prefix.Len+i, v)
+		}
+		return res
+	}
+	all := append(in.sliceBytes(prefix), out...)
+	return in.bytesToSlice(all)
 }
